@@ -54,6 +54,15 @@ class World(object):
         t = build.build_tree(self.dp, nested, self.ns, self.taxa, rooted=self.rooted)
         if w is not None:
             t.weight = float(w[0]) / w[1]
+        if self.ag and self.case["seed"] % 2:
+            # history before counting: the tree was dated while its edges were twice as long (scale, date, scale back;
+            # exact in binary floats).  Counting must summarise the ages of the tree as it is NOW, not the stale ones.
+            try:
+                t.scale_edges(2.0)
+                t.calc_node_ages(ultrametricity_precision=False)
+                t.scale_edges(0.5)
+            except Exception:
+                pass
         return t
 
     def new_holder(self, h, kind):
